@@ -10,6 +10,7 @@ package main
 import (
 	"fmt"
 	"strconv"
+	"strings"
 	"time"
 
 	"google.golang.org/protobuf/types/known/durationpb"
@@ -49,6 +50,7 @@ type meshDesc struct {
 	seed uint64
 	objs []obj
 	mc   *meshconfig.MeshConfig
+	nets *meshconfig.MeshNetworks // nil, or two networks with gateways (split-horizon EDS)
 }
 
 const rootNS = "istio-system"
@@ -63,13 +65,15 @@ var (
 )
 
 type mgen struct {
-	r     *wire.Rng
-	objs  []obj
-	hosts []string // host pool of this mesh (k8s + external)
+	r       *wire.Rng
+	objs    []obj
+	hosts   []string // host pool of this mesh (k8s + external)
+	nsHosts []string // the same hosts as "namespace/host" (exact, namespaced egress host entries)
 	// bias: number of distinct creation timestamps
-	nTimes int
-	podIP  int
-	scale  int // 1, or 3 for the occasional large mesh
+	nTimes   int
+	podIP    int
+	scale    int  // 1, or 3 for the occasional large mesh
+	multiNet bool // some pods live on network n2
 }
 
 func (g *mgen) upTo(n int) int { return g.r.Intn(n*g.sc() + 1 - g.sc()/2) }
@@ -170,9 +174,14 @@ func (g *mgen) k8sObjects() {
 				}
 				node := g.r.Intn(len(nodeLocs))
 				pname := fmt.Sprintf("%s-%d", name, p)
+				plabels := map[string]string{"app": name, "version": g.pick([]string{"v1", "v2"})}
+				if g.multiNet && ip != sidecarIP && g.r.Chance(1, 2) {
+					plabels["topology.istio.io/network"] = "n2"
+					plabels["security.istio.io/tlsMode"] = "istio"
+				}
 				g.addK8s("pod", "Pod/"+ns+"/"+pname, &corev1.Pod{
 					ObjectMeta: metav1.ObjectMeta{Name: pname, Namespace: ns, CreationTimestamp: metav1.NewTime(g.when()), ResourceVersion: "1",
-						Labels: map[string]string{"app": name, "version": g.pick([]string{"v1", "v2"})}},
+						Labels: plabels},
 					Spec: corev1.PodSpec{NodeName: "n" + strconv.Itoa(node), ServiceAccountName: g.pick([]string{"sa-" + name, "default"})},
 					Status: corev1.PodStatus{PodIP: ip, PodIPs: []corev1.PodIP{{IP: ip}}, Phase: corev1.PodRunning,
 						Conditions: []corev1.PodCondition{{Type: corev1.PodReady, Status: corev1.ConditionTrue}}},
@@ -210,6 +219,7 @@ func (g *mgen) k8sObjects() {
 				})
 			}
 			g.hosts = append(g.hosts, k8sHost(name, ns))
+			g.nsHosts = append(g.nsHosts, ns+"/"+k8sHost(name, ns))
 		}
 	}
 	// a second service selecting the pods of `a` (same workload ports behind two services)
@@ -390,6 +400,9 @@ func (g *mgen) serviceEntries() {
 		g.addCfg("serviceentry", g.meta(gvk.ServiceEntry, "se"+strconv.Itoa(i), ns), se)
 		for _, h := range hosts {
 			g.hosts = append(g.hosts, h)
+			if !strings.HasPrefix(h, "*") {
+				g.nsHosts = append(g.nsHosts, ns+"/"+h)
+			}
 		}
 	}
 	// workload-selector ServiceEntry with WorkloadEntries
@@ -700,7 +713,27 @@ func (g *mgen) sidecars() {
 		}
 		for e, ne := 0, 1+g.r.Intn(2); e < ne; e++ {
 			var hosts []string
-			switch g.r.Intn(5) {
+			switch g.r.Intn(7) {
+			case 5, 6:
+				// only exact, namespaced hosts (no wildcard host, no "*/" namespace): the exact-host fast path
+				// (servicesForExactHosts) instead of the scan of everything exported to the namespace
+				cand := append([]string(nil), g.nsHosts...)
+				shuffle(g.r, cand)
+				if len(cand) > 5 {
+					cand = cand[:2+g.r.Intn(4)]
+				}
+				hosts = cand
+				if g.r.Chance(1, 3) {
+					hosts = append(hosts, "./"+g.pick(g.hostsOr("a.default.svc.cluster.local")))
+				}
+				if len(hosts) == 0 {
+					hosts = []string{"./*"}
+				}
+				for k, h := range hosts {
+					if strings.Contains(h, "*") && h != "./*" {
+						hosts[k] = "default/a.default.svc.cluster.local"
+					}
+				}
 			case 0:
 				hosts = []string{"./*"}
 			case 1:
@@ -719,6 +752,11 @@ func (g *mgen) sidecars() {
 				if l.Port.Number == 9000 {
 					l.Port.Protocol, l.Port.Name = "TCP", "tcp"
 				}
+				if g.r.Chance(1, 4) {
+					// an HTTP_PROXY egress listener: one route configuration for all ports (mergeAllVirtualHosts)
+					l.Port = &networking.SidecarPort{Number: 3128, Protocol: "HTTP_PROXY", Name: "http-proxy"}
+					l.Bind = "127.0.0.1"
+				}
 			}
 			sc.Egress = append(sc.Egress, l)
 		}
@@ -729,6 +767,22 @@ func (g *mgen) sidecars() {
 			sc.Ingress = []*networking.IstioIngressListener{{Port: &networking.SidecarPort{Number: 8080, Protocol: "HTTP", Name: "http"}, DefaultEndpoint: "127.0.0.1:8080"}}
 		}
 		g.addCfg("sidecar", g.meta(gvk.Sidecar, "sc"+strconv.Itoa(i), ns), sc)
+		// distribution counters: which of the special egress listener shapes this Sidecar has
+		for _, l := range sc.Egress {
+			exact := len(l.Hosts) > 0
+			for _, h := range l.Hosts {
+				if strings.Contains(h, "*") || strings.HasPrefix(h, "~/") {
+					exact = false
+				}
+			}
+			if exact {
+				g.objs[len(g.objs)-1].feat = "sidecar-exact-hosts"
+			}
+			if l.Port != nil && l.Port.Protocol == "HTTP_PROXY" {
+				g.objs[len(g.objs)-1].feat = "sidecar-http-proxy-listener"
+				break
+			}
+		}
 	}
 }
 
@@ -954,6 +1008,7 @@ func buildMesh(seed uint64) *meshDesc {
 	if g.r.Chance(1, 12) {
 		g.scale = 3
 	}
+	g.multiNet = g.r.Chance(1, 6)
 	g.k8sObjects()
 	g.gammaRoutes()
 	g.serviceEntries()
@@ -965,7 +1020,18 @@ func buildMesh(seed uint64) *meshDesc {
 	g.security()
 	g.extensions()
 	g.trafficExtensions()
-	return &meshDesc{seed: seed, objs: g.objs, mc: g.meshConfig()}
+	md := &meshDesc{seed: seed, objs: g.objs, mc: g.meshConfig()}
+	if g.multiNet {
+		gw := func(addr string) *meshconfig.Network_IstioNetworkGateway {
+			return &meshconfig.Network_IstioNetworkGateway{Gw: &meshconfig.Network_IstioNetworkGateway_Address{Address: addr}, Port: 15443}
+		}
+		md.nets = &meshconfig.MeshNetworks{Networks: map[string]*meshconfig.Network{
+			"n1": {Endpoints: []*meshconfig.Network_NetworkEndpoints{{Ne: &meshconfig.Network_NetworkEndpoints_FromRegistry{FromRegistry: "Kubernetes"}}},
+				Gateways: []*meshconfig.Network_IstioNetworkGateway{gw("1.1.1.9")}},
+			"n2": {Gateways: []*meshconfig.Network_IstioNetworkGateway{gw("2.2.2.3"), gw("2.2.2.2"), gw("2.2.2.10")}},
+		}}
+	}
+	return md
 }
 
 // meshConfig varies the mesh-wide settings that steer generation.
@@ -995,6 +1061,9 @@ func (g *mgen) meshConfig() *meshconfig.MeshConfig {
 	}
 	if g.r.Chance(1, 5) {
 		m.InboundTrafficPolicy = &meshconfig.MeshConfig_InboundTrafficPolicy{Mode: meshconfig.MeshConfig_InboundTrafficPolicy_LOCALHOST}
+	}
+	if g.r.Chance(1, 5) {
+		m.ProxyHttpPort = 15002 // the http_proxy listener and route (mergeAllVirtualHosts)
 	}
 	if g.r.Chance(1, 6) {
 		m.ServiceSettings = []*meshconfig.MeshConfig_ServiceSettings{{Settings: &meshconfig.MeshConfig_ServiceSettings_Settings{ClusterLocal: true},
